@@ -554,7 +554,7 @@ Proof.
         try (specialize (Hd id)); try lia]).
   - (* make_shared *)
     rewrite rc_of_app. destruct hd; [discriminate|]. cbn [cnt_opt pid fst].
-    rewrite (Nat.eqb_sym (S (length (heap g))) id). destruct (Nat.eqb id (S (length (heap g)))); lia.
+    rewrite (Nat.eqb_sym (S (length (heap g))) id). destruct (Nat.eqb_spec id (S (length (heap g)))) as [->|]; [rewrite rc_of_fresh|]; lia.
   - (* Drop *) pose proof (cnt_setslot id s None sl). cbn [cnt_opt] in *. lia.
   - (* ReadObj *) match goal with H : getslot _ sl = Some _ |- _ => rewrite (alive_pos _ _ (Hsl _ _ H)) end. reflexivity.
   - (* simple method, no fault *)
@@ -578,3 +578,66 @@ Proof.
   - (* the result goes into the slot *)
     match goal with |- context [setslot ?b hd sl] => pose proof (cnt_setslot id b hd sl) end. cbn [cnt_opt] in *. lia.
 Qed.
+
+(* ---------- the ghost log is a sequential history of the map ---------- *)
+Lemma pscan_cons thr o om tm k p r c :
+  pscan thr o om tm ((k, p) :: r) c =
+  if memZ c thr then (MS om tm (c + 1), None)
+  else if ptest o tm k p then let '(om', tm', rv) := pfound o om tm k p in (MS om' tm' (c + 1), Some rv)
+  else pscan thr o om tm r (c + 1).
+Proof. reflexivity. Qed.
+Lemma pscan_nil thr o om tm c : pscan thr o om tm [] c = (MS om tm c, Some 0).
+Proof. reflexivity. Qed.
+
+Lemma lin_pc_ext g g' p : omap g' = omap g -> tmap g' = tmap g -> calls g' = calls g -> throws g' = throws g ->
+  log g' = log g -> lin_pc g p -> lin_pc g' p.
+Proof.
+  intros H1 H2 H3 H4 H5. unfold lin_pc, hist, cur. rewrite H1, H2, H3, H4, H5. tauto.
+Qed.
+
+Lemma step_other g t c l g' l' es : holds (at_ l) = false -> mtx g <> None ->
+  tstep t c g l = Some (g', l', es) ->
+  omap g' = omap g /\ tmap g' = tmap g /\ calls g' = calls g /\ throws g' = throws g /\ log g' = log g /\ mtx g' = mtx g.
+Proof.
+  intros Hh Hm Hs. destruct l as [pr p sl hd]. cbn [at_] in Hh.
+  step_cases Hs; cbn in Hh; try discriminate; try congruence; cbn; auto 10.
+Qed.
+
+Lemma first_key_some {A} (m : list (Z * A)) k : first_key m = Some k -> exists p suf, m = (k, p) :: suf.
+Proof. destruct m as [|[k' p] r]; cbn; intros H; inversion H; subst; eauto. Qed.
+Lemma first_key_none {A} (m : list (Z * A)) : first_key m = None -> m = [].
+Proof. destruct m as [|[k' p] r]; cbn; intros H; [reflexivity|discriminate]. Qed.
+Lemma is_rem_true o : is_rem o = true -> exists k, o = RemPred k.
+Proof. destruct o; cbn; intros H; try discriminate; eauto. Qed.
+Lemma pfound_find o om tm k p : is_rem o = false -> pfound o om tm k p = (om, tm, Z.of_nat (pid p)).
+Proof. destruct o; cbn; intros H; try discriminate; reflexivity. Qed.
+
+Lemma step_lin g ls t c l g' l' es :
+  Inv g ls -> nth_error ls t = Some l -> tstep t c g l = Some (g', l', es) ->
+  (mtx g' = None -> cur g' = hist g') /\ (forall u, lin_pc g' (pcof (upd ls t l') u)) /\ legal (throws g') st0 (log g').
+Proof.
+  intros HI Hl Hs.
+  pose proof (pcof_at _ _ _ Hl) as Hp.
+  assert (Hoth : forall u, u <> t -> lin_pc g' (pcof ls u)).
+  { intros u Hne. destruct (holds (pcof ls u)) eqn:Hh.
+    - pose proof (I_owner _ _ HI u Hh) as Hm.
+      assert (holds (at_ l) = false) as Hnh.
+      { destruct (holds (at_ l)) eqn:E; [|reflexivity]. rewrite <- Hp in E.
+        pose proof (I_owner _ _ HI t E). congruence. }
+      assert (mtx g <> None) as Hmn by congruence.
+      destruct (step_other _ _ _ _ _ _ _ Hnh Hmn Hs) as [E1 [E2 [E3 [E4 [E5 _]]]]].
+      apply (lin_pc_ext g g'); auto. apply (I_lin _ _ HI).
+    - destruct (pcof ls u); try discriminate; exact I. }
+  pose proof (I_free _ _ HI) as HFr. pose proof (I_legal _ _ HI) as HLg.
+  pose proof (I_lin _ _ HI t) as HLt. rewrite Hp in HLt.
+  pose proof (I_so _ _ HI) as Hso.
+  assert (Hsplit : forall u, (lin_pc g' (at_ l')) -> lin_pc g' (pcof (upd ls t l') u)).
+  { intros u H. rewrite (pcof_upd _ _ _ _ _ Hl). destruct (Nat.eqb_spec u t); [exact H|auto]. }
+  pose proof (I_owner _ _ HI t) as HOt. rewrite Hp in HOt.
+  destruct l as [pr p sl hd]. cbn [at_] in *.
+  step_cases Hs; cbn [holds] in HOt; try (specialize (HOt eq_refl));
+    (split; [|split; [intros u; apply Hsplit; clear Hsplit Hoth|]]);
+    cbn [mtx at_ lin_pc throws log]; try exact I; try exact HLg; try discriminate.
+  all: unfold cur, hist, harg in *; cbn [omap tmap calls throws log mtx held] in *.
+  all: try (intros Hm; first [exact (HFr Hm) | congruence]).
+  Show.
